@@ -265,6 +265,12 @@ func c06(c *core.Ctx) {
 		}
 		c.EndRule()
 	}
+
+	// ---------------------------------------------------------------- R7, R8, R9 (shared with C18)
+	// the destination is overwritten, never merged (C18/R1); refusals are errors, never a shallow or wrong-typed
+	// copy (C18/R2); every adapter bottoms out in a deep-copy primitive applied to the source (C18/R3)
+	c.Borrow("C18", map[string]string{"R1": "R7", "R2": "R8", "R3": "R9"}, c18)
+
 }
 
 type clLeaf struct {
@@ -874,6 +880,12 @@ func c20(c *core.Ctx) {
 		}
 		c.EndRule()
 	}
+
+	// ---------------------------------------------------------------- R7 (shared)
+	// "per direction": the two directions of a stream do not wait for each other, and every lock is released
+	// (C05/R4: a receive that queues behind a parked send makes a stalled direction stall the other)
+	c.Borrow("C05", map[string]string{"R4": "R7"}, c05)
+
 }
 
 func isMsgish(t types.Type) bool {
